@@ -63,6 +63,49 @@ PROPS = {
                     'k-th measurement k intervals after the start (system invariant); tie = fact tables + lock-step on the real sensors.',
         assumptions=['copy.copy of a probed value: checked by the lock-step with a list attribute mutated in place (values are immutable in the model)',
                      'data_capacity >= 1 (asserted by the constructor)']),
+    'C02': dict(
+        vfile='Props/C02.v', ties=['Tie/TieEnv.v', 'Tie/TieFloor.v'],
+        families=[('floor', 400, 12000, 'small', 'large')],
+        rule='F_floor scenarios: layered production lines (sources incl. cycle 0 and finite budgets, handlers, processors with resources/callbacks/work orders, buffers with delay and capacity, batchers, decision gates, flow controllers, shared groups reached through several paths, sinks), scripted failures/shutdowns/restores/blocking/capacity changes, many single steps then runs, generated from VERIF_SEED (corpus/floor first); '
+             'non-trivial = at least 8 parts received by devices and 3 supplied by sources; distinct by scenario text',
+        explanation='Single-slot invariant proved for every device in every reachable state; every change of a device during any event action is one of the guarded transformers '
+                    '(a part enters only an empty device, moves input->output only as itself); a failure loses exactly the input part. The census equation itself is checked by the '
+                    'census monitor on the implementation and by the lock-step (full device contents after every event). PARTIAL.',
+        assumptions=['well-posed layouts (DAG, every device reaches a sink)', 'user callbacks are drawn from the scripted callback language (DESIGN.md appendix A)',
+                     'global census equation not yet a theorem']),
+    'C05': dict(
+        vfile='Props/C05.v', ties=['Tie/TieEnv.v', 'Tie/TieFloor.v'],
+        families=[('floor', 400, 12000, 'small', 'large')],
+        rule='F_floor scenarios: layered production lines (sources incl. cycle 0 and finite budgets, handlers, processors with resources/callbacks/work orders, buffers with delay and capacity, batchers, decision gates, flow controllers, shared groups reached through several paths, sinks), scripted failures/shutdowns/restores/blocking/capacity changes, many single steps then runs, generated from VERIF_SEED (corpus/floor first); '
+             'non-trivial = a buffer is present and its level changed at least 4 times; distinct by scenario text',
+        explanation='Buffer invariant (level = stored count <= capacity, entry times non-decreasing, FIFO) proved for every reachable state; the head leaves only when now >= entry + minimum delay; '
+                    'tie = fact tables + lock-step on the real Buffer.',
+        assumptions=['well-posed layouts', 'capacity >= 1 or None, minimum_delay >= 0']),
+    'C13': dict(
+        vfile='Props/C13.v', ties=['Tie/TieEnv.v', 'Tie/TieFloor.v', 'Tie/TieMaint.v'],
+        families=[('floor', 400, 12000, 'small', 'large')],
+        rule='F_floor scenarios: layered production lines (sources incl. cycle 0 and finite budgets, handlers, processors with resources/callbacks/work orders, buffers with delay and capacity, batchers, decision gates, flow controllers, shared groups reached through several paths, sinks), scripted failures/shutdowns/restores/blocking/capacity changes, many single steps then runs, generated from VERIF_SEED (corpus/floor first); '
+             'non-trivial = a failure or a pause happened and at least 2 parts were produced; distinct by scenario text',
+        explanation='Processor state-machine theorems (shut down: accepts nothing, releases nothing; failure: loses exactly the input part; repeated shutdown/restore are no-ops), '
+                    'clock invariant and exact uptime/utilisation accounting for every reachable state and every time advance; a clause false of the original code '
+                    '(failure during a shutdown, coq/Findings/C13_refuted.v) was repaired by a fix: commit; tie = fact tables + lock-step + accounting monitor on the real PartProcessor.',
+        assumptions=['well-posed layouts', 'callbacks from the scripted language']),
+    'C16': dict(
+        vfile='Props/C16.v', ties=['Tie/TieEnv.v', 'Tie/TieFloor.v'],
+        families=[('floor', 400, 12000, 'small', 'large')],
+        rule='F_floor scenarios: layered production lines (sources incl. cycle 0 and finite budgets, handlers, processors with resources/callbacks/work orders, buffers with delay and capacity, batchers, decision gates, flow controllers, shared groups reached through several paths, sinks), scripted failures/shutdowns/restores/blocking/capacity changes, many single steps then runs, generated from VERIF_SEED (corpus/floor first); '
+             'non-trivial = at least 8 parts received and 3 supplied; distinct by scenario text',
+        explanation='Value theorems: a generated part carries the generator value; every device adds its value exactly once on acceptance (guarded transformer), '
+                    'sink value = sum of received; cost bookkeeping of work orders (C12_start); tie = lock-step on values of every part/device after every event.',
+        assumptions=['well-posed layouts', 'values on the 1/8 grid']),
+    'C17': dict(
+        vfile='Props/C17.v', ties=['Tie/TieEnv.v', 'Tie/TieFloor.v'],
+        families=[('floor', 400, 12000, 'small', 'large')],
+        rule='F_floor scenarios: layered production lines (sources incl. cycle 0 and finite budgets, handlers, processors with resources/callbacks/work orders, buffers with delay and capacity, batchers, decision gates, flow controllers, shared groups reached through several paths, sinks), scripted failures/shutdowns/restores/blocking/capacity changes, many single steps then runs, generated from VERIF_SEED (corpus/floor first); '
+             'non-trivial = a batcher is present and at least 6 parts were received; distinct by scenario text',
+        explanation='Batcher invariant (an emitted batch has exactly output_batch_size parts in arrival order, unbatching emits members one by one in order, in-progress batch never exceeds the size) '
+                    'for every reachable state; tie = lock-step on batch contents after every event.',
+        assumptions=['well-posed layouts', 'output_batch_size None or >= 1']),
 }
 
 LEVELS = {
@@ -109,9 +152,34 @@ LEVELS = {
              '(coq/Findings/C19_refuted.v), repaired by a fix: commit.',
         design_ref='DESIGN.md section 8, C19', technique='Coq proof (suffix invariant, counter arithmetic, system invariant) + lock-step correspondence with the sensor classes',
         note='Trusted: Coq kernel, pyfacts.py, extraction + OCaml driver, Python harness.'),
+    'C02': dict(
+        text='PARTIAL. Machine-checked: no single-slot device ever holds an input and an output part at once (every reachable state); every device change is a guarded transformer '
+             '(R_exec_fact): acceptance needs both slots empty, finishing moves that very part, identities never rewritten; a failure loses exactly the input part. '
+             'Not yet a theorem: the global census equation across devices (hand-over is a two-device step); it is decided on the implementation side by the census monitor '
+             'and by lock-step agreement of every device content after every event.',
+        design_ref='DESIGN.md section 8, C02', technique='Coq proof (per-device invariants over guarded transformers, induction over events) + lock-step correspondence + census monitor',
+        note='Partial: census equation validated, not proved. Trusted: Coq kernel, pyfacts.py, extraction + OCaml driver, Python harness.'),
+    'C05': dict(
+        text='Machine-checked Coq theorems: buffer level = number stored <= capacity, entry times sorted (FIFO), a part leaves only from the head and only after its minimum delay, '
+             'for every reachable state of every layout/event order; tied by fact tables and lock-step.',
+        design_ref='DESIGN.md section 8, C05', technique='Coq proof (buffer invariant, stable under all guarded transformers; FIFO relation over every event) + lock-step correspondence with Buffer',
+        note='Trusted: Coq kernel, pyfacts.py, extraction + OCaml driver, Python harness.'),
+    'C13': dict(
+        text='Machine-checked Coq theorems on the processor state machine: shut-down refuses/keeps, failure effect, idempotent shutdown/restore, clock invariant, '
+             'uptime/utilisation unchanged by event actions and growing exactly with operational / processing time. One clause was false of the original code (C13_refuted.v), repaired (fix: f79706b).',
+        design_ref='DESIGN.md section 8, C13', technique='Coq proof (state-machine lemmas + two-sided accounting invariant over all events and time advances) + lock-step correspondence with PartProcessor',
+        note='Trusted: Coq kernel, pyfacts.py, extraction + OCaml driver, Python harness. Work-order window relies on C12 theorems.'),
+    'C16': dict(
+        text='Machine-checked Coq theorems: value added exactly once per acceptance, generator value on new parts, sink accumulates received values, maintenance cost charged once at start; tied by lock-step on all values.',
+        design_ref='DESIGN.md section 8, C16', technique='Coq proof (value lemmas over guarded transformers) + lock-step correspondence',
+        note='Partial for end-to-end sums across a whole route (follows from per-acceptance lemmas + lock-step; not a single theorem).'),
+    'C17': dict(
+        text='Machine-checked Coq theorems: batch invariant for every reachable state (in-progress batch below the size, emitted batches full and in arrival order; unbatching in order).',
+        design_ref='DESIGN.md section 8, C17', technique='Coq proof (batcher invariant stable under all guarded transformers) + lock-step correspondence with PartBatcher',
+        note='Trusted: Coq kernel, pyfacts.py, extraction + OCaml driver, Python harness.'),
 }
 
 NOT_APPLICABLE = [
     dict(property_id=p, reason='check under construction in this round (model layer not yet built); see DESIGN.md section 12 build order')
-    for p in ['C02', 'C03', 'C04', 'C05', 'C06', 'C08', 'C11', 'C13', 'C14', 'C15', 'C16', 'C17', 'C20']
+    for p in ['C03', 'C04', 'C06', 'C08', 'C11', 'C14', 'C15', 'C20']
 ]
